@@ -248,8 +248,10 @@ type NegationNode struct {
 }
 
 func parseNegation(p *parser, t token) (Node, error) {
+	// The operand of a unary minus ends at the next binary
+	// arithmetic operator: -a * b is (-a) * b.
 	return &NegationNode{
-		RHS: p.parseExpression(p.bp(t.Type)),
+		RHS: p.parseExpression(p.bp(typeMult)),
 	}, nil
 }
 
